@@ -343,7 +343,7 @@ Proof.
     unfold with_frames in H. apply bind_ok in H. destruct H as [[fs root] [E H]]. inversion H; subst.
     split; [cbn; apply (push_property_no_ns _ _ _ _ _ _ Hn E) | reflexivity].
   - (* comment *)
-    destruct c.
+    destruct (c && negb (starts_bang text)).
     + inversion H; subst. apply good_refl, Hn.
     + pose proof (push_comment_no_ns (d_frames st) (d_root st) (IComment text) Hn) as P.
       destruct (push_comment (d_frames st) (d_root st) (IComment text)) as [fs root].
